@@ -15,6 +15,12 @@ def main():
     rng = chk.rng
     abbrs = D.abbreviations()
     unique = [a for a in abbrs if len(D.TZ().get(a, [])) == 1]
+    ref_tz, live_tz, _ = D.tables()
+    chk.coverage['abbreviations'] = {
+        'reference (Spec/TimezonesRef.lean)': len(ref_tz), 'data_file_of_the_tree': len(live_tz),
+        'only_in_data_file': sorted(set(live_tz) - set(ref_tz))[:20], 'missing_from_data_file': sorted(set(ref_tz) - set(live_tz))[:20],
+        'ambiguous_by_reference': sum(1 for v in ref_tz.values() if len(v) > 1),
+        'every abbreviation of both tables': 'in 9 zone positions / spellings (family date-fix-abbr), in every tier'}
     scale = (20 if chk.thorough else 1) * (3 if chk.broken else 1)
 
     fam = {
@@ -136,8 +142,8 @@ def main():
     chk.finish(
         level='proof',
         rule='(s, tz_hint) pairs: regex-directed strings (date/time digits biased to calendar boundaries; every separator class incl. all 29 '
-             'Unicode white-space characters and look-alikes; seconds; GMT/UTC prefixes; colon in the offset; every abbreviation of data/timezones '
-             'in 9 positions; ambiguous and unknown abbreviations), one-edit mutants (odd digits, boilerplate bits), boilerplate placements, '
+             'Unicode white-space characters and look-alikes; seconds; GMT/UTC prefixes; colon in the offset; every abbreviation of the reference table AND of data/timezones '
+             'in 9 positions / spellings (" A", "A", " +A", ...), judged by the reference table; ambiguous and unknown abbreviations), one-edit mutants (odd digits, boilerplate bits), boilerplate placements, '
              'garbage; hints: none, valid, malformed; fixed boundary list (34 years x Feb 28/29/30, month/day 00/13/32, 24:00, :60, '
              '+2359/+2400/-0000/+9959, the epoch minute with offsets across it); check_dates contexts with utc_now patched to the instant '
              '-1us/0/+1us/+-1min, to the epoch +-, to datetime.min/max; duplicates, Publican, template and binary exemptions; '
@@ -146,6 +152,8 @@ def main():
              'every hh:mm 00..99 x 00..99, every offset +-0000..9999; non-trivial = distinct accepted normal form',
         trusted=['Lean 4.33 kernel', 'axioms: propext, Classical.choice, Quot.sound only',
                  'tools/translate/date2lean.py (dumps lib.gettext._timezones, epoch, the white-space class of the running interpreter; pins the regex texts)',
+                 'lean/I18n/Spec/TimezonesRef.lean: HAND-MAINTAINED reference of the zone abbreviations and all their offsets (tzdata 2014e, 210 rows, '
+                 'written down from data/timezones as of /repo 14c240b); it defines "known abbreviation / unique offset" for the pin timezones_ref_pin and for the falsifier',
                  'Python re finds a derivation of the dumped sre_parse tree iff one exists (Spec/DateRe.lean semantics); the scanners are proved equal to the trees',
                  'strptime / datetime / aware comparison are modelled (parseCanon, Stamp.minutes), tied by the date-fix-* and date-instant streams',
                  'the correspondence harness (tools/checks/date_common.py, Driver/Date.lean); misc.utc_now is patched in the harness only'],
@@ -155,7 +163,9 @@ def main():
                     'date_tags_iff (each of the five possible tags iff its condition on the counted calendar instant; nothing else), '
                     'template_placeholder_exempt, no_date_field, check_dates_shape, sorted_set_spec, NoCrash (check_dates), parse_canon_iff, instant_counts, ordinal_counts, '
                     'parse_date_regex, parseDate_is_regex, boilerplate_regex, regex_groups (the dumped sre_parse trees mean Written / HasBoilerplate), '
-                    'canonical_unique, normalises_unique, strip_stripped, regex_pin, epoch_pin, table_pin. Finding (fixed in /repo by 303433e): '
+                    'canonical_unique, normalises_unique, strip_stripped, regex_pin, epoch_pin, whitespace_pin, table_pin, timezones_ref_pin (every offset the hand-maintained '
+                    'reference lists for an abbreviation is still in the tool\'s table: data/timezones may add abbreviations/offsets and be re-ordered, '
+                    'not drop an offset), timezones_ref_wellformed, unique_offset_sound, fix_abbr_by_reference, ref_ambiguous_rejected. Finding (fixed in /repo by 303433e): '
                     'hints accepted by strptime %z but not of the form +HHMM tripped the length assertion or gave a non-ASCII result. '
                     'OUTSTANDING: nothing stated in the design is missing. Modelled rather than verified: strptime / datetime / comparison of '
                     'aware datetimes (tied by the date-fix-*, date-instant, date-check streams over the calendar boundaries); Python re is trusted to '
